@@ -170,6 +170,7 @@ func (e *Engine) evalPure(s *State, fn *ssa.Function, args []Val, bind []Val) Va
 func (e *Engine) step(s *State) []*State {
 	f := e.top(s)
 	in := f.block.Instrs[f.idx]
+	e.curInstr, e.curFrame = in, f
 	adv := true
 	var forks []*State
 	switch x := in.(type) {
@@ -854,6 +855,9 @@ func (e *Engine) call(s *State, f *Frame, x *ssa.Call) bool {
 		fn, bind = fv.Fn, fv.Bind
 	}
 	name := fn.Name()
+	if fn.Pkg != nil && strings.HasSuffix(fn.Pkg.Pkg.Path(), "internal/verifspec") {
+		name = "vs" + name
+	}
 	switch {
 	case strings.HasPrefix(name, "vsOld"): // vsOld(f): evaluate closure f in the heap of function entry
 		cl := args[0].(FuncV)
@@ -993,6 +997,10 @@ func (e *Engine) call(s *State, f *Frame, x *ssa.Call) bool {
 	if len(s.frames) > 64 {
 		panic("inlining too deep at " + fn.String())
 	}
+	if e.inlined == nil {
+		e.inlined = map[string]bool{}
+	}
+	e.inlined[shortName(fn.String())] = true
 	s.frames = append(s.frames, e.newFrame(s, fn, args, bind, x, false))
 	return false
 }
